@@ -78,7 +78,7 @@ def run(rep, tier, seed):
     nvar = len(texts)
     # specification level: the BBLexer machine reproduces the real token stream of every variant, the grammar machine accepts it,
     # and its significant tokens (everything but NEWLINE) are those of the canonical layout
-    sample = texts if tier != "quick" else rng.sample(texts, min(len(texts), 700))
+    sample = rng.sample(texts, min(len(texts), 700 if tier == "quick" else 20000))
     syn = syntax.Syntax()
     mods = syn.modules()
     lexcases = [(t, realsyn.lex(t)) for _, t in sample]
